@@ -364,6 +364,45 @@ func c04GenLine(r *vhRng) string {
 		}
 		ops = append(ops, fmt.Sprintf("wd h%d", cur))
 		ops = g.reads(ops, cur)
+		if c+1 < chain && r.Chance(1, 4) {
+			// a fork: two snapshots of one persisted parent (child-less or not), child tries created
+			// AFTER the fork, equal contents on both sides, each side persisted and read back
+			if len(g.ckeys) == 0 {
+				g.ckeys = [][]byte{{0xc0}, {0xc1}}
+			}
+			ops = append(ops, fmt.Sprintf("snap h%d", cur), fmt.Sprintf("snap h%d", cur))
+			a, b := nh, nh+1
+			nh += 2
+			ck := g.ckeys[r.Intn(len(g.ckeys))]
+			ck2 := ck
+			if r.Bool() {
+				ck2 = g.ckeys[r.Intn(len(g.ckeys))]
+			}
+			k, v := g.key(), g.val()
+			ops = append(ops, fmt.Sprintf("putc h%d %s %s %s", a, vhHex(ck), vhHex(k), vhHex(v)))
+			ops = append(ops, fmt.Sprintf("putc h%d %s %s %s", b, vhHex(ck2), vhHex(k), vhHex(v)))
+			if r.Chance(2, 3) {
+				ops = append(ops, fmt.Sprintf("putc h%d %s %s %s", a, vhHex(ck), vhHex(g.key()), vhHex(g.val())))
+			}
+			ops = g.mutate(ops, a, r.Intn(3))
+			ops = g.mutate(ops, b, r.Intn(3))
+			ops = append(ops, fmt.Sprintf("wd h%d", a))
+			ops = g.reads(ops, a)
+			ops = append(ops, fmt.Sprintf("wd h%d", b))
+			ops = g.reads(ops, b)
+			if r.Bool() {
+				ops = append(ops, fmt.Sprintf("putc h%d %s %s %s", b, vhHex(ck2), vhHex(g.key()), vhHex(g.val())))
+				ops = append(ops, fmt.Sprintf("wd h%d", b))
+				ops = g.reads(ops, b)
+				ops = append(ops, fmt.Sprintf("load h%d", a))
+			}
+			cur = a
+			if r.Bool() {
+				cur = b
+			}
+			ops = g.mutate(ops, cur, r.Intn(4))
+			continue
+		}
 		if c+1 < chain {
 			ops = append(ops, fmt.Sprintf("snap h%d", cur))
 			cur = nh
